@@ -645,7 +645,7 @@ func (fg *FuncGen) valueOf(v ssa.Value) TTerm {
 	case *ssa.Global:
 		return TTerm{S: "0", Sort: "Int", T: c.Type()}
 	case *ssa.Function:
-		return TTerm{S: fmt.Sprint(fg.g.TypeID(c.Type())), Sort: "Int", T: c.Type()}
+		return TTerm{S: fmt.Sprint(fg.g.FuncID(FuncKey(c))), Sort: "Int", T: c.Type()} // a function value is identified by the function it names
 	case *ssa.Builtin:
 		return TTerm{S: "0", Sort: "Int"}
 	}
